@@ -17,8 +17,9 @@ var c08Alphabet = []hx.Op{
 	{K: "rkset", Key: "a", End: "d", Suf: "@2", Val: "x"},
 	{K: "rkunset", Key: "b", End: "d", Suf: "@1"},
 	{K: "rkdel", Key: "a", End: "c"},
-	{K: "set", Key: "b"},
 	{K: "compact"},
+	// --- end of the small alphabet (7)
+	{K: "set", Key: "b"},
 	{K: "ingest", Sub: []hx.Op{{K: "rkset", Key: "b", End: "d", Suf: "@2", Val: "x"}, {K: "set", Key: "b"}}},
 	// --- end of the reduced alphabet (9)
 	{K: "rkset", Key: "a", End: "d", Suf: "@1"},
@@ -37,6 +38,7 @@ var c08Alphabet = []hx.Op{
 }
 
 const c08Reduced = 9
+const c08Small = 7
 
 var c08ModelBounds = []string{"a", "b", "c", "d"}
 
@@ -78,22 +80,30 @@ func isRangeKeyWrite(op hx.Op) bool {
 
 func runC08(c *vlib.Ctx) {
 	full := len(c08Alphabet)
+	// "fast" is the base configuration without a WAL and with a 32 KiB memtable: pebble.Open of the
+	// default configuration (WAL writer buffers, 256 KiB arena) cost more than half of a case, and
+	// neither matters for what an iterator shows. The default configuration runs one level shallower.
+	fast := hx.Config{Name: "fast(nowal,memtable32k)", DisableWAL: true, MemTableSize: 32 << 10}
+	tiny := hx.Config{Name: "tinyfiles", TinyFiles: true, DisableWAL: true, MemTableSize: 32 << 10}
+	split := hx.Config{Name: "flushsplit", L0Sublevels: true, DisableWAL: true, MemTableSize: 32 << 10}
 	var plans []c08Plan
 	if !c.Thorough() {
 		plans = []c08Plan{
-			{hx.Config{Name: "base"}, full, 1, 3},
-			{hx.Config{Name: "tinyfiles", TinyFiles: true}, full, 1, 2},
-			{hx.Config{Name: "base"}, c08Reduced, 4, 4},
+			{fast, full, 1, 3},
+			{hx.Config{Name: "default"}, full, 1, 2},
+			{tiny, full, 1, 2},
+			{fast, c08Small, 4, 4},
 		}
 	} else {
 		plans = []c08Plan{
-			{hx.Config{Name: "base"}, full, 1, 3},
-			{hx.Config{Name: "tinyfiles", TinyFiles: true}, full, 1, 3},
-			{hx.Config{Name: "flushsplit", L0Sublevels: true}, full, 1, 3},
-			{hx.Config{Name: "fmv-min", FMV: 13}, full, 1, 3},
-			{hx.Config{Name: "base"}, full, 4, 4},
-			{hx.Config{Name: "base"}, c08Reduced, 5, 5},
-			{hx.Config{Name: "tinyfiles", TinyFiles: true}, c08Reduced, 4, 4},
+			{fast, full, 1, 3},
+			{hx.Config{Name: "default"}, full, 1, 3},
+			{tiny, full, 1, 3},
+			{split, full, 1, 3},
+			{hx.Config{Name: "fmv-min", FMV: 13, DisableWAL: true, MemTableSize: 32 << 10}, full, 1, 3},
+			{fast, full, 4, 4},
+			{fast, c08Reduced, 5, 5},
+			{tiny, c08Reduced, 4, 4},
 		}
 	}
 	scr := scripts(c08Probes)
@@ -117,18 +127,17 @@ func runC08(c *vlib.Ctx) {
 			}
 			cs := Case{Prop: "C08", Cfg: p.cfg, Bounds: c08ModelBounds, Hist: hist}
 			var st driveStats
-			m, shape, f := runHistory(c, cs, c08Iters, scr, false, false, &st)
+			m, shape, f := runCase(c, cs, c08Iters, scr, &st, classifier("C08"))
 			c.Eval(1)
 			c.Trans(st.calls)
 			tot.add(st)
 			if f != nil {
-				report(c, cs, f, func() *failure {
-					var st2 driveStats
-					_, _, f2 := runHistory(c, cs, c08Iters, scr, false, false, &st2)
-					return f2
-				})
+				violation(c, cs, f)
 				c.Outcome("violation:" + f.class)
 				return
+			}
+			if m == nil {
+				return // did not reproduce; recorded as incomplete
 			}
 			c.State(vlib.Hash(m.String(), shape))
 			if maint > 0 && rkw >= 2 {
